@@ -263,6 +263,16 @@ func nasOptLengths(e refnas.TOpt) []int {
 	if e.Fixed {
 		return []int{e.Cap}
 	}
+	if e.Cap > 0 && e.Cap <= 32 {
+		// a small IE: every length it can have (an S-NSSAI is 1, 2, 4, 5 or 8 octets long: none of them is special here)
+		out := []int{1}
+		for n := 0; n <= e.Cap; n++ {
+			if n != 1 {
+				out = append(out, n)
+			}
+		}
+		return out
+	}
 	cands := []int{1, 2, 0, 3, 16, 255}
 	if e.Fmt == "TLV-E" {
 		cands = append(cands, 256, 1000)
